@@ -6,7 +6,7 @@ THEOREMS = ['Feox.C03.allocation_from_the_front_keeps_spans', 'Feox.C03.interlea
 
 
 def run(ctx):
-    return proto_check(ctx, MODULE, THEOREMS, ['crash', 'hazard'], ['workloads=2', 'budget=12', 'hazards=3'], ['workloads=20', 'budget=60', 'hazards=20'], ['C03'], "a crash image does not reopen to authentic, untorn, recent contents", [
+    return proto_check(ctx, MODULE, THEOREMS, ['crash', 'hazard'], ['workloads=4', 'budget=8', 'hazards=3'], ['workloads=20', 'budget=60', 'hazards=20'], ['C03'], "a crash image does not reopen to authentic, untorn, recent contents", [
         "kernel / file system: a write either fails or lands; a completed fsync makes every earlier write durable; a crash loses or tears (512 B) any subset of the un-synced writes only",
         "TornDetect: a torn journal slot / metadata block fails its checksum or equals the old or the new image (DESIGN.md section 2) — a hypothesis, not an axiom",
         "the abstract disk (Feox.Proto.Disk) is related to bytes by the Lean reader Feox.Fmt.recoverImage, itself compared with the real recovery on every crash image of this run",
